@@ -536,6 +536,8 @@ def t17_mps(run, fx, floors=True):
         run.anchor_missing(rule, "script functions that call sort_by_modified_combining_class (found %d)" % n)
 
 def check(run, fx, tier, floors=True):
+    import bsearch
+    bsearch.rule_bsearch(run, fx, "T17-BS", select=lambda b: b.file.startswith(('src/scripts', 'src/unicode')), floors=floors, floor_n=0)
     if floors or fx.body("scripts::arabic::is_modifier_combining_mark") is not None:
         t17_mcm(run, fx)
     if floors or fx.body("scripts::indic::preprocess_indic") is not None:
